@@ -1,3 +1,439 @@
-import NoteSeqVerif.Model.C01
+import NoteSeqVerif.Proofs.C01
+import Mathlib.Tactic.Linarith
+import Mathlib.Tactic.Ring
+import Mathlib.Tactic.FieldSimp
+import Mathlib.Data.Rat.Floor
+/-! C01 — property theorems (quantization).  `R` is the rounding operator applied after every
+float operation of the Python (`R = id`: exact-arithmetic reading of the property; the compiled
+driver runs `R = rne53` and is compared bit-exactly with CPython on every run). -/
 namespace NSV.C01
+open NSV
+
+/-! ## nearest step, ties up, uniqueness, monotonicity, stretch invariance -/
+theorem truncR_of_nonneg {x : Rat} (h : 0 ≤ x) : truncR x = x.floor := by
+  simp [truncR, h]
+
+/-- exact arithmetic: `R = id`, cutoff 1/2, non-negative product -/
+theorem qstep_exact_eq (t s : Rat) (h : 0 ≤ t * s) :
+    qstepR id (1/2) t s = (t * s + 1/2).floor := by
+  unfold qstepR
+  have : (0:Rat) ≤ t * s + (1 - 1/2) := by linarith
+  simp only [id]
+  rw [truncR_of_nonneg this]
+  congr 1; ring
+
+theorem qstep_exact_nearest (t s : Rat) (h : 0 ≤ t * s) :
+    |((qstepR id (1/2) t s : Int) : Rat) - t * s| ≤ 1/2 := by
+  rw [qstep_exact_eq t s h]
+  have h1 := Rat.floor_le (t * s + 1/2)
+  have h2 := Rat.lt_floor_add_one (t * s + 1/2)
+  push_cast at h2
+  rw [abs_le]; constructor <;> linarith
+
+theorem qstep_exact_tie_up (t s : Rat) (n : Int) (hn : 0 ≤ n) (h : t * s = n + 1/2) :
+    qstepR id (1/2) t s = n + 1 := by
+  have h0 : (0:Rat) ≤ t * s := by rw [h]; have : (0:Rat) ≤ n := by exact_mod_cast hn
+                                  linarith
+  rw [qstep_exact_eq t s h0, h]
+  have : ((n:Rat) + 1/2 + 1/2) = ((n + 1 : Int) : Rat) := by push_cast; ring
+  rw [this, Rat.floor_intCast]
+
+/-- the quantized step is the only integer strictly closer than 1/2, and the upper one on a tie -/
+theorem qstep_exact_unique (t s : Rat) (h : 0 ≤ t * s) (m : Int)
+    (hm : -(1/2 : Rat) < (m : Rat) - t * s ∧ (m : Rat) - t * s ≤ 1/2) :
+    qstepR id (1/2) t s = m := by
+  rw [qstep_exact_eq t s h]
+  apply Int.le_antisymm
+  · have : (t * s + 1/2).floor < m + 1 := by
+      rw [Rat.floor_lt_iff]; push_cast; linarith [hm.1]
+    omega
+  · rw [Rat.le_floor_iff]; linarith [hm.2]
+
+theorem truncR_mono {x y : Rat} (h : x ≤ y) : truncR x ≤ truncR y := by
+  unfold truncR
+  by_cases hx : 0 ≤ x
+  · have hy : 0 ≤ y := le_trans hx h
+    simp only [hx, hy, if_true]
+    exact Rat.floor_monotone h
+  · by_cases hy : 0 ≤ y
+    · simp only [hx, hy, if_true, if_false]
+      have h1 : x.ceil ≤ 0 := by
+        rw [Rat.ceil_le_iff]; push_cast; linarith [not_le.mp hx]
+      have h2 : (0:Int) ≤ y.floor := by
+        rw [Rat.le_floor_iff]; exact_mod_cast hy
+      omega
+    · simp only [hx, hy, if_false]
+      rw [Rat.ceil_le_iff]
+      exact le_trans h Rat.le_ceil
+
+/-- step assignment is monotone in time for every monotone rounding operator -/
+theorem qstep_mono (R : Rat → Rat) (hR : ∀ a b, a ≤ b → R a ≤ R b) (c t₁ t₂ s : Rat)
+    (hs : 0 ≤ s) (h : t₁ ≤ t₂) : qstepR R c t₁ s ≤ qstepR R c t₂ s := by
+  unfold qstepR
+  apply truncR_mono
+  apply hR
+  have := hR _ _ (mul_le_mul_of_nonneg_right h hs)
+  linarith
+
+/-- tempo-relative quantization is invariant under uniform stretching (exact arithmetic):
+stretching multiplies every time by `f` and divides the tempo by `f` -/
+theorem qstep_stretch_invariant (c t qpm f : Rat) (spq : Int) (hf : f ≠ 0) :
+    qstepR id c (t * f) (spsR id spq (qpm / f)) = qstepR id c t (spsR id spq qpm) := by
+  unfold qstepR spsR
+  simp only [id]
+  congr 2
+  field_simp
+
+example : (0:Rat) ≤ (7/2 : Rat) * 4 ∧ qstepR id (1/2) (7/2) 4 = 14 ∧ qstepR id (1/2) (5/8) 4 = 3 := by
+  refine ⟨by norm_num, by decide +kernel, by decide +kernel⟩
+
+/-! ## what `_quantize_notes` does: minimum length, total covers, non-negative, frame -/
+
+/-- every quantized note is at least one step long (monotone step function, `start ≤ end`) -/
+theorem quantize_min_len (q : Rat → Int) (hq : ∀ a b, a ≤ b → q a ≤ q b) (s r : NoteSeq)
+    (hwf : ∀ n ∈ s.notes, n.start ≤ n.end_) (h : quantizeNotes q s = .ok r) :
+    ∀ n ∈ r.notes, n.qs + 1 ≤ n.qe := by
+  rcases quantizeNotes_spec q s with ⟨_, e⟩ | ⟨_, e⟩
+  · rw [e] at h; cases h
+  · rw [e] at h; cases h
+    intro n hn
+    simp only [quantized, List.mem_map] at hn
+    obtain ⟨m, hm, rfl⟩ := hn
+    have := hq _ _ (hwf m hm)
+    simp only [qNote, fixEnd]
+    split <;> omega
+
+/-- `total_quantized_steps` covers every note end and never decreases -/
+theorem quantize_total_covers (q : Rat → Int) (s r : NoteSeq) (h : quantizeNotes q s = .ok r) :
+    s.totalQSteps ≤ r.totalQSteps ∧ ∀ n ∈ r.notes, n.qe ≤ r.totalQSteps := by
+  rcases quantizeNotes_spec q s with ⟨_, e⟩ | ⟨_, e⟩
+  · rw [e] at h; cases h
+  · rw [e] at h; cases h
+    refine ⟨le_foldl_max _ _, ?_⟩
+    intro n hn
+    simp only [quantized, List.mem_map] at hn
+    obtain ⟨m, hm, rfl⟩ := hn
+    exact mem_le_foldl_max _ _ _ (List.mem_map.mpr ⟨m, hm, rfl⟩)
+
+/-- no step of a returned sequence is negative -/
+theorem quantize_nonneg (q : Rat → Int) (s r : NoteSeq) (h : quantizeNotes q s = .ok r) :
+    (∀ n ∈ r.notes, 0 ≤ n.qs ∧ 0 ≤ n.qe) ∧ (∀ c ∈ r.ccs, 0 ≤ c.qstep) ∧ (∀ c ∈ r.texts, 0 ≤ c.qstep) := by
+  rcases quantizeNotes_spec q s with ⟨_, e⟩ | ⟨hn, e⟩
+  · rw [e] at h; cases h
+  · rw [e] at h; cases h
+    unfold anyNeg at hn
+    refine ⟨?_, ?_, ?_⟩
+    · intro n hm
+      simp only [quantized, List.mem_map] at hm
+      obtain ⟨m, hm, rfl⟩ := hm
+      have : ¬ noteNeg q m := fun hh => hn (Or.inl ⟨m, hm, hh⟩)
+      unfold noteNeg at this
+      simp only [qNote]; omega
+    · intro c hc
+      simp only [quantized, List.mem_map] at hc
+      obtain ⟨m, hm, rfl⟩ := hc
+      have : ¬ q m.time < 0 := fun hh => hn (Or.inr (Or.inl ⟨m, hm, hh⟩))
+      simp only []; omega
+    · intro c hc
+      simp only [quantized, List.mem_map] at hc
+      obtain ⟨m, hm, rfl⟩ := hc
+      have : ¬ q m.time < 0 := fun hh => hn (Or.inr (Or.inr ⟨m, hm, hh⟩))
+      simp only []; omega
+
+/-- exactly the negative-time inputs are rejected, and only with `NegativeTimeError` -/
+theorem quantizeNotes_negative_iff (q : Rat → Int) (s : NoteSeq) :
+    (quantizeNotes q s = .error .negativeTimeError ↔ anyNeg q s) ∧
+    (∀ e, quantizeNotes q s = .error e → e = .negativeTimeError) := by
+  rcases quantizeNotes_spec q s with ⟨hn, e⟩ | ⟨hn, e⟩
+  · refine ⟨⟨fun _ => hn, fun _ => e⟩, ?_⟩
+    intro e' h; rw [e] at h; cases h; rfl
+  · refine ⟨⟨?_, fun h => absurd h hn⟩, ?_⟩
+    · intro h; rw [e] at h; cases h
+    · intro e' h; rw [e] at h; cases h
+
+/-- every step assigned is the step function of the event's own time (so "nearest step" and
+monotonicity transfer from `qstepR`), order and all other attributes of every record intact -/
+theorem quantizeNotes_frame (q : Rat → Int) (s r : NoteSeq) (h : quantizeNotes q s = .ok r) :
+    r.notes = s.notes.map (fun n => { n with qs := q n.start, qe := fixEnd (q n.start) (q n.end_) }) ∧
+    r.ccs = s.ccs.map (fun c => { c with qstep := q c.time }) ∧
+    r.texts = s.texts.map (fun c => { c with qstep := q c.time }) ∧
+    r.tempos = s.tempos ∧ r.timeSigs = s.timeSigs ∧ r.keySigs = s.keySigs ∧ r.bends = s.bends ∧
+    r.sectionAnns = s.sectionAnns ∧ r.sgroups = s.sgroups ∧ r.totalTime = s.totalTime ∧
+    r.spq = s.spq ∧ r.sps = s.sps ∧ r.hasSub = s.hasSub ∧ r.subStart = s.subStart ∧
+    r.subEnd = s.subEnd ∧ r.tpq = s.tpq ∧ r.metaTag = s.metaTag := by
+  rcases quantizeNotes_spec q s with ⟨_, e⟩ | ⟨_, e⟩
+  · rw [e] at h; cases h
+  · rw [e] at h; cases h
+    simp [quantized, qNote]
+
+/-- absolute quantization: only the quantization fields change -/
+theorem quantizeAbs_frame (R : Rat → Rat) (c : Rat) (s r : NoteSeq) (sps : Int)
+    (h : quantizeAbsR R c s sps = .ok r) :
+    let q := fun t => qstepR R c t (sps : Rat)
+    r.notes = s.notes.map (fun n => { n with qs := q n.start, qe := fixEnd (q n.start) (q n.end_) }) ∧
+    r.ccs = s.ccs.map (fun c => { c with qstep := q c.time }) ∧
+    r.texts = s.texts.map (fun c => { c with qstep := q c.time }) ∧
+    r.tempos = s.tempos ∧ r.timeSigs = s.timeSigs ∧ r.keySigs = s.keySigs ∧ r.bends = s.bends ∧
+    r.sectionAnns = s.sectionAnns ∧ r.sgroups = s.sgroups ∧ r.totalTime = s.totalTime ∧
+    r.spq = 0 ∧ r.sps = sps ∧ r.hasSub = s.hasSub ∧ r.subStart = s.subStart ∧
+    r.subEnd = s.subEnd ∧ r.tpq = s.tpq ∧ r.metaTag = s.metaTag ∧
+    q s.totalTime ≤ r.totalQSteps := by
+  unfold quantizeAbsR at h
+  have hf := quantizeNotes_frame _ _ _ h
+  have ht := (quantize_total_covers _ _ _ h).1
+  simp only [] at hf ht ⊢
+  simp [hf, ht]
+
+/-! ## tempo-relative quantization: validation (iff form, every storage order) and frame -/
+
+/-- a genuine time-signature change, or an implicit change from the initial 4/4, is rejected -/
+theorem quantizeRel_rejects_time_signature_change (R : Rat → Rat) (c dq : Rat) (s : NoteSeq) (spq : Int)
+    (h : tsChange s.timeSigs ∨ tsImplicit s.timeSigs) :
+    quantizeRelR R c dq s spq = .error .multipleTimeSignatureError := by
+  unfold quantizeRelR
+  cases hl : s.timeSigs with
+  | nil => rw [hl] at h; rcases h with ⟨a, ha, _⟩ | ⟨a, ha, _⟩ <;> simp at ha
+  | cons first rest =>
+    rw [hl] at h
+    rcases checkTimeSigs_spec first rest with ⟨_, e⟩ | ⟨h1, h2, _⟩
+    · simp [e]
+    · rcases h with h | h
+      · exact absurd h h1
+      · exact absurd h h2
+
+/-- the time signature that survives validation -/
+def keptTimeSig (s : NoteSeq) : TimeSig :=
+  match s.timeSigs with
+  | [] => ⟨0, 4, 4⟩
+  | first :: _ => { first with time := 0 }
+
+def keptTempo (dq : Rat) (s : NoteSeq) : Tempo :=
+  match s.tempos with
+  | [] => ⟨0, dq⟩
+  | first :: _ => { first with time := 0 }
+
+theorem checkTimeSigs_ok (s : NoteSeq) (h1 : ¬ tsChange s.timeSigs) (h2 : ¬ tsImplicit s.timeSigs) :
+    checkTimeSigs s.timeSigs = .ok (keptTimeSig s) := by
+  unfold keptTimeSig
+  cases hl : s.timeSigs with
+  | nil => simp [checkTimeSigs]
+  | cons first rest =>
+    rw [hl] at h1 h2
+    rcases checkTimeSigs_spec first rest with ⟨h, _⟩ | ⟨_, _, e⟩
+    · rcases h with h | h
+      · exact absurd h h1
+      · exact absurd h h2
+    · simpa using e
+
+theorem checkTempos_ok (dq : Rat) (s : NoteSeq) (h1 : ¬ tpChange s.tempos) (h2 : ¬ tpImplicit dq s.tempos) :
+    checkTempos dq s.tempos = .ok (keptTempo dq s) := by
+  unfold keptTempo
+  cases hl : s.tempos with
+  | nil => simp [checkTempos]
+  | cons first rest =>
+    rw [hl] at h1 h2
+    rcases checkTempos_spec dq first rest with ⟨h, _⟩ | ⟨_, _, e⟩
+    · rcases h with h | h
+      · exact absurd h h1
+      · exact absurd h h2
+    · simpa using e
+
+/-- zero numerator or non-power-of-two denominator → `BadTimeSignatureError` -/
+theorem quantizeRel_bad_time_signature (R : Rat → Rat) (c dq : Rat) (s : NoteSeq) (spq : Int)
+    (h1 : ¬ tsChange s.timeSigs) (h2 : ¬ tsImplicit s.timeSigs)
+    (hbad : isPow2 (keptTimeSig s).den = false ∨ (keptTimeSig s).num = 0) :
+    quantizeRelR R c dq s spq = .error .badTimeSignatureError := by
+  unfold quantizeRelR
+  rw [checkTimeSigs_ok s h1 h2]
+  simp only []
+  rcases hbad with h | h
+  · simp [h]
+  · by_cases hp : isPow2 (keptTimeSig s).den <;> simp [hp, h]
+
+/-- `_is_power_of_2` accepts exactly the powers of two -/
+theorem isPow2_iff (x : Int) : isPow2 x = true ↔ ∃ k : Nat, x = 2 ^ k := by
+  unfold isPow2
+  constructor
+  · intro h
+    simp only [Bool.and_eq_true, decide_eq_true_eq, beq_iff_eq] at h
+    obtain ⟨hpos, hand⟩ := h
+    have hne : x.toNat ≠ 0 := by omega
+    obtain ⟨k, hk⟩ := (Nat.and_sub_one_eq_zero_iff_isPowerOfTwo hne).mp hand
+    refine ⟨k, ?_⟩
+    have : (x.toNat : Int) = x := Int.toNat_of_nonneg (by omega)
+    rw [← this, hk]; push_cast; rfl
+  · rintro ⟨k, rfl⟩
+    have hpos : (0 : Int) < 2 ^ k := by positivity
+    have htn : ((2 : Int) ^ k).toNat = 2 ^ k := by
+      have : ((2 : Int) ^ k) = ((2 ^ k : Nat) : Int) := by push_cast; rfl
+      rw [this, Int.toNat_natCast]
+    simp only [Bool.and_eq_true, decide_eq_true_eq, beq_iff_eq]
+    refine ⟨hpos, ?_⟩
+    rw [htn]
+    exact (Nat.and_sub_one_eq_zero_iff_isPowerOfTwo (by positivity)).mpr ⟨k, rfl⟩
+
+/-- a genuine tempo change (or implicit change from 120 qpm) is rejected -/
+theorem quantizeRel_rejects_tempo_change (R : Rat → Rat) (c dq : Rat) (s : NoteSeq) (spq : Int)
+    (h1 : ¬ tsChange s.timeSigs) (h2 : ¬ tsImplicit s.timeSigs)
+    (hp : isPow2 (keptTimeSig s).den = true) (hn : (keptTimeSig s).num ≠ 0)
+    (h : tpChange s.tempos ∨ tpImplicit dq s.tempos) :
+    quantizeRelR R c dq s spq = .error .multipleTempoError := by
+  unfold quantizeRelR
+  rw [checkTimeSigs_ok s h1 h2]
+  simp only [hp, hn]
+  cases hl : s.tempos with
+  | nil => rw [hl] at h; rcases h with ⟨a, ha, _⟩ | ⟨a, ha, _⟩ <;> simp at ha
+  | cons first rest =>
+    rw [hl] at h
+    rcases checkTempos_spec dq first rest with ⟨_, e⟩ | ⟨g1, g2, _⟩
+    · simp [e]
+    · rcases h with h | h
+      · exact absurd h g1
+      · exact absurd h g2
+
+/-- the accepted case: one tempo and one time signature made explicit at time zero, then
+`_quantize_notes` at `steps_per_quarter * qpm / 60` steps per second — nothing else changes -/
+theorem quantizeRel_accepts (R : Rat → Rat) (c dq : Rat) (s : NoteSeq) (spq : Int)
+    (h1 : ¬ tsChange s.timeSigs) (h2 : ¬ tsImplicit s.timeSigs)
+    (hp : isPow2 (keptTimeSig s).den = true) (hn : (keptTimeSig s).num ≠ 0)
+    (g1 : ¬ tpChange s.tempos) (g2 : ¬ tpImplicit dq s.tempos) :
+    let q := fun t => qstepR R c t (spsR R spq (keptTempo dq s).qpm)
+    quantizeRelR R c dq s spq =
+      quantizeNotes q { s with spq := spq, sps := 0, timeSigs := [keptTimeSig s],
+                               tempos := [keptTempo dq s], totalQSteps := q s.totalTime } := by
+  unfold quantizeRelR
+  rw [checkTimeSigs_ok s h1 h2]
+  simp only [hp, hn]
+  rw [checkTempos_ok dq s g1 g2]
+  simp
+
+theorem quantizeRel_frame (R : Rat → Rat) (c dq : Rat) (s r : NoteSeq) (spq : Int)
+    (h : quantizeRelR R c dq s spq = .ok r) :
+    let q := fun t => qstepR R c t (spsR R spq (keptTempo dq s).qpm)
+    r.notes = s.notes.map (fun n => { n with qs := q n.start, qe := fixEnd (q n.start) (q n.end_) }) ∧
+    r.ccs = s.ccs.map (fun c => { c with qstep := q c.time }) ∧
+    r.texts = s.texts.map (fun c => { c with qstep := q c.time }) ∧
+    r.tempos = [keptTempo dq s] ∧ r.timeSigs = [keptTimeSig s] ∧
+    r.keySigs = s.keySigs ∧ r.bends = s.bends ∧
+    r.sectionAnns = s.sectionAnns ∧ r.sgroups = s.sgroups ∧ r.totalTime = s.totalTime ∧
+    r.spq = spq ∧ r.sps = 0 ∧ r.hasSub = s.hasSub ∧ r.subStart = s.subStart ∧
+    r.subEnd = s.subEnd ∧ r.tpq = s.tpq ∧ r.metaTag = s.metaTag ∧
+    q s.totalTime ≤ r.totalQSteps := by
+  by_cases h1 : tsChange s.timeSigs ∨ tsImplicit s.timeSigs
+  · rw [quantizeRel_rejects_time_signature_change R c dq s spq h1] at h; cases h
+  · have h1a : ¬ tsChange s.timeSigs := fun hh => h1 (Or.inl hh)
+    have h1b : ¬ tsImplicit s.timeSigs := fun hh => h1 (Or.inr hh)
+    by_cases hbad : isPow2 (keptTimeSig s).den = false ∨ (keptTimeSig s).num = 0
+    · rw [quantizeRel_bad_time_signature R c dq s spq h1a h1b hbad] at h; cases h
+    · have hp : isPow2 (keptTimeSig s).den = true := by
+        cases hh : isPow2 (keptTimeSig s).den
+        · exact absurd (Or.inl hh) hbad
+        · rfl
+      have hn : (keptTimeSig s).num ≠ 0 := fun hh => hbad (Or.inr hh)
+      by_cases g : tpChange s.tempos ∨ tpImplicit dq s.tempos
+      · rw [quantizeRel_rejects_tempo_change R c dq s spq h1a h1b hp hn g] at h; cases h
+      · have g1 : ¬ tpChange s.tempos := fun hh => g (Or.inl hh)
+        have g2 : ¬ tpImplicit dq s.tempos := fun hh => g (Or.inr hh)
+        rw [quantizeRel_accepts R c dq s spq h1a h1b hp hn g1 g2] at h
+        have hf := quantizeNotes_frame _ _ _ h
+        have ht := (quantize_total_covers _ _ _ h).1
+        simp only [] at hf ht ⊢
+        simp [hf, ht]
+
+/-! ## independence of storage order (the rejection clause for "all placements") -/
+
+theorem tsChange_perm {l l' : List TimeSig} (h : l.Perm l') : tsChange l ↔ tsChange l' := by
+  unfold tsChange
+  constructor
+  · rintro ⟨a, ha, b, hb, hab⟩; exact ⟨a, h.mem_iff.mp ha, b, h.mem_iff.mp hb, hab⟩
+  · rintro ⟨a, ha, b, hb, hab⟩; exact ⟨a, h.mem_iff.mpr ha, b, h.mem_iff.mpr hb, hab⟩
+
+theorem tsImplicit_perm {l l' : List TimeSig} (h : l.Perm l') : tsImplicit l ↔ tsImplicit l' := by
+  unfold tsImplicit
+  constructor
+  · rintro ⟨e, he, hm, hr⟩; exact ⟨e, h.mem_iff.mp he, fun x hx => hm x (h.mem_iff.mpr hx), hr⟩
+  · rintro ⟨e, he, hm, hr⟩; exact ⟨e, h.mem_iff.mpr he, fun x hx => hm x (h.mem_iff.mp hx), hr⟩
+
+/-- the verdict on the time signatures, and the (numerator, denominator) kept, do not depend on
+the order in which the time signatures are stored -/
+theorem checkTimeSigs_perm {l l' : List TimeSig} (h : l.Perm l') :
+    (checkTimeSigs l).map (fun t => (t.time, t.num, t.den)) =
+    (checkTimeSigs l').map (fun t => (t.time, t.num, t.den)) := by
+  cases l with
+  | nil => have := h.length_eq; cases l' with
+    | nil => rfl
+    | cons _ _ => simp at this
+  | cons a as =>
+    cases l' with
+    | nil => have := h.length_eq; simp at this
+    | cons b bs =>
+      rcases checkTimeSigs_spec a as with ⟨hx, e⟩ | ⟨hx1, hx2, e⟩ <;>
+      rcases checkTimeSigs_spec b bs with ⟨hy, e'⟩ | ⟨hy1, hy2, e'⟩
+      · rw [e, e']
+      · exfalso; rcases hx with hx | hx
+        · exact hy1 ((tsChange_perm h).mp hx)
+        · exact hy2 ((tsImplicit_perm h).mp hx)
+      · exfalso; rcases hy with hy | hy
+        · exact hx1 ((tsChange_perm h).mpr hy)
+        · exact hx2 ((tsImplicit_perm h).mpr hy)
+      · rw [e, e']
+        have hb : b ∈ a :: as := h.mem_iff.mpr (by simp)
+        have : sameSig a b := by
+          apply Classical.byContradiction
+          intro hh
+          exact hx1 ⟨a, by simp, b, hb, hh⟩
+        unfold sameSig at this
+        simp [Except.map, this.1, this.2]
+
+theorem tpChange_perm {l l' : List Tempo} (h : l.Perm l') : tpChange l ↔ tpChange l' := by
+  unfold tpChange
+  constructor
+  · rintro ⟨a, ha, b, hb, hab⟩; exact ⟨a, h.mem_iff.mp ha, b, h.mem_iff.mp hb, hab⟩
+  · rintro ⟨a, ha, b, hb, hab⟩; exact ⟨a, h.mem_iff.mpr ha, b, h.mem_iff.mpr hb, hab⟩
+
+theorem tpImplicit_perm (dq : Rat) {l l' : List Tempo} (h : l.Perm l') : tpImplicit dq l ↔ tpImplicit dq l' := by
+  unfold tpImplicit
+  constructor
+  · rintro ⟨e, he, hm, hr⟩; exact ⟨e, h.mem_iff.mp he, fun x hx => hm x (h.mem_iff.mpr hx), hr⟩
+  · rintro ⟨e, he, hm, hr⟩; exact ⟨e, h.mem_iff.mpr he, fun x hx => hm x (h.mem_iff.mp hx), hr⟩
+
+theorem checkTempos_perm (dq : Rat) {l l' : List Tempo} (h : l.Perm l') :
+    (checkTempos dq l).map (fun t => (t.time, t.qpm)) = (checkTempos dq l').map (fun t => (t.time, t.qpm)) := by
+  cases l with
+  | nil => have := h.length_eq; cases l' with
+    | nil => rfl
+    | cons _ _ => simp at this
+  | cons a as =>
+    cases l' with
+    | nil => have := h.length_eq; simp at this
+    | cons b bs =>
+      rcases checkTempos_spec dq a as with ⟨hx, e⟩ | ⟨hx1, hx2, e⟩ <;>
+      rcases checkTempos_spec dq b bs with ⟨hy, e'⟩ | ⟨hy1, hy2, e'⟩
+      · rw [e, e']
+      · exfalso; rcases hx with hx | hx
+        · exact hy1 ((tpChange_perm h).mp hx)
+        · exact hy2 ((tpImplicit_perm dq h).mp hx)
+      · exfalso; rcases hy with hy | hy
+        · exact hx1 ((tpChange_perm h).mpr hy)
+        · exact hx2 ((tpImplicit_perm dq h).mpr hy)
+      · rw [e, e']
+        have hb : b ∈ a :: as := h.mem_iff.mpr (by simp)
+        have : a.qpm = b.qpm := by
+          apply Classical.byContradiction
+          intro hh
+          exact hx1 ⟨a, by simp, b, hb, hh⟩
+        simp [Except.map, this]
+
+/-! non-vacuity: a stored-out-of-order genuine change (the former defect F-C01-1) is a `tsChange`,
+and an accepted sequence exists -/
+example : tsChange [⟨5, 3, 4⟩, ⟨0, 4, 4⟩] := ⟨⟨5, 3, 4⟩, by simp, ⟨0, 4, 4⟩, by simp, by decide⟩
+example : ¬ tsChange [⟨2, 4, 4⟩, ⟨0, 4, 4⟩] ∧ ¬ tsImplicit [⟨2, 4, 4⟩, ⟨0, 4, 4⟩] := by
+  constructor
+  · rintro ⟨a, ha, b, hb, hab⟩
+    simp at ha hb
+    rcases ha with rfl | rfl <;> rcases hb with rfl | rfl <;> exact hab ⟨rfl, rfl⟩
+  · rintro ⟨e, he, _, _, h44⟩
+    simp at he
+    rcases he with rfl | rfl <;> exact h44 ⟨rfl, rfl⟩
+
 end NSV.C01
